@@ -64,6 +64,7 @@ type lxCase struct {
 	Width  []int   `json:"width"`
 	Canon  []int   `json:"canon"`
 	NL     int     `json:"nl"` // the newline symbol
+	Bom    int     `json:"bom"` // the symbol that is U+FEFF (skipped when it opens the input), 0: none
 	TM     string  `json:"tmtext"`
 	Pkg    string  `json:"pkg"`
 	GenErr string  `json:"genErr"`
@@ -84,6 +85,9 @@ func c11Alphabet(mode string) lexAlphabet {
 	case "rune2": // the highest character is exactly U+07FF: the boundary between the flat and the compressed rune map
 		return lexAlphabet{Mode: "rune", Chars: []string{"a", "b", "é", "λ", "\u07ff", "\n", " "}, Pat: []string{"a", "b", "é", "λ", "\u07ff", `\n`, `\x20`},
 			Width: []int{1, 1, 2, 2, 2, 1, 1}, Canon: []int{1, 2, 3, 4, 5, 6, 7}}
+	case "rune3": // characters that are awkward inside generated Go source (token comments, string literals): BOM, line separators, DEL
+		return lexAlphabet{Mode: "rune", Chars: []string{"a", "b", "\ufeff", "\u2028", "\u0085", "\n", " "}, Pat: []string{"a", "b", `\ufeff`, `\u2028`, `\u0085`, `\n`, `\x20`},
+			Width: []int{1, 1, 3, 3, 2, 1, 1}, Canon: []int{1, 2, 3, 4, 5, 6, 7}}
 	}
 	return lexAlphabet{Mode: "rune", Chars: []string{"a", "b", "é", "𝄞", "中", "\n", " "}, Pat: []string{"a", "b", "é", "𝄞", "中", `\n`, `\x20`},
 		Width: []int{1, 1, 2, 4, 3, 1, 1}, Canon: []int{1, 2, 3, 4, 5, 6, 7}}
@@ -331,11 +335,16 @@ func c11Gen(args []string) error {
 	for id := 0; id < n; id++ {
 		c := &cases[id]
 		c.ID, c.Pkg = id, fmt.Sprintf("x%d", id)
-		c.Mode = []string{"rune", "rune", "rune2", "bytes", "fold", "foldbytes"}[r.Intn(6)]
+		c.Mode = []string{"rune", "rune", "rune2", "bytes", "fold", "foldbytes", "rune3"}[r.Intn(7)]
 		a := c11Alphabet(c.Mode)
 		alphs[id] = a
 		c.Width, c.Canon = a.Width, a.Canon
 		c.NL = len(a.Chars) - 1
+		for i, ch := range a.Chars {
+			if ch == "\ufeff" {
+				c.Bom = i + 1
+			}
+		}
 		c.NSC = 1
 		if r.Intn(3) == 0 {
 			c.NSC = 2
